@@ -242,6 +242,10 @@ def generic_path(chk, mod):
             uv = [e for e in p.log if e[0] == 'call:unit_vectors']
             dr = [e for e in p.log if e[0] == 'call:drop']
             tt = [e for e in p.log if e[0] == 'call:two_theta']
+            if not uv and not dr:
+                # none of the callee stand-ins was reached: the function does this work itself or through other helpers -- the modular
+                # contract (caller against callee contracts) does not address that shape of the code; the stand-ins decide
+                raise core.Unsupported(f'{pre} does not call beam_aligned_unit_vectors / _drop_due_to_gravity through their module-level names')
             chk.decided(f'{pre}/uses-callees-once[{tag}]', len(uv) == 1 and len(dr) == 1 and len(tt) == 1,
                         detail=f'unit_vectors {len(uv)}, drop {len(dr)}, two_theta {len(tt)}')
             if not (len(uv) == 1 and len(dr) == 1 and len(tt) == 1):
@@ -288,6 +292,8 @@ def _common(chk, pre, tag, p, a, base):
     uv = [e for e in p.log if e[0] == 'call:unit_vectors']
     dr = [e for e in p.log if e[0] == 'call:drop']
     ok = len(uv) == 1 and len(dr) == 1
+    if not uv and not dr:
+        raise core.Unsupported(f'{pre} does not call beam_aligned_unit_vectors / _drop_due_to_gravity through their module-level names')
     chk.decided(f'{pre}/uses-callees-once[{tag}]', ok, detail=f'unit_vectors {len(uv)}, drop {len(dr)}')
     if not ok:
         return None
@@ -388,6 +394,10 @@ def dispatcher(chk, mod):
         paths = chk.explore(lambda: mod.scattering_angles_with_gravity(**inputs()), base=base, catch=CATCH)
     finally:
         mod._scattering_angles_with_gravity_generic, mod._scattering_angles_with_gravity_orthogonal_coords = saved
+    if not any(e[0] == 'dispatch' for p in paths for e in p.log):
+        # the dispatcher reaches its two implementations in another way than through these module-level names (a table built at import
+        # time, other helpers): this wiring contract does not address that shape of the code -- the stand-ins decide
+        raise core.Unsupported('scattering_angles_with_gravity does not call the two implementations through their module-level names')
     gN = core.sqrt_term(norm2(a['gravity'].val), nonneg=True)
     dev = dotz(a['gravity'].val, a['incident_beam'].val)
     absdev = z3.If(dev >= 0, dev, -dev)
